@@ -131,6 +131,23 @@ def plain_line_cases(ctx, n):
         out.append((ctx.rng.choice(stages.URIS), 'hier_block_element', ctx.rng.choice(stages.PREFIXES), line + '\n'))
     return out
 
+def keyword_line_cases():
+    """keyword lines as people type them - the part after the keyword in every shape: typographic dashes with and without blanks
+    around them, a trailing dash, only punctuation, two blanks, several ' - ', a lone backslash ... - on hierarchical elements, list items,
+    speech containers and attachments, for the six roots"""
+    tails = ['12\u201314', 'II\u2014III', '(a)\u2013(c)', '1 \u2013', '1 \u2013 Preliminary', '\u2013 Preliminary', '\u2014', '1 -', '- ', ' -', '1 - - x', '1 - a - b', '1  -  x', '1.  Short title',
+             '\\', '1 \\', '\\- x', '...', '()', '1 -- x', '1 \u2212 x', '1\u00a0-\u00a0x', '1\t-\tx', '\u00a7 12', 'No. 1 of 2020', '1 - \u2013', '**1**', '{{>#x 1}}', '1 - {{^a}}']
+    out = []
+    for t in tails:
+        for root in gen.ROOTS6:
+            out.append((stages.URIS[0], root, '', 'SEC %s\n  Repealed.\n' % t))
+        out.append((stages.URIS[0], 'act', 'p_1', 'PART %s\n  SEC 1\n    x\n' % t))
+        out.append((stages.URIS[0], 'doc', '', 'ITEMS\n  ITEM %s\n    x\n' % t))
+        out.append((stages.URIS[0], 'act', '', 'SCHEDULE %s\n  x\n' % t))
+        out.append((stages.URIS[0], 'debateReport', '', 'DEBATESECTION %s\n  SPEECH\n    FROM a\n    x\n' % t))
+        out.append((stages.URIS[0], 'act', '', 'CROSSHEADING %s\n' % t))
+    return out
+
 def correspondence(ctx):
     pl = plain_line_cases(ctx, ctx.n(40, 2000))
     for uri, root, prefix, text in pl:
@@ -140,7 +157,7 @@ def correspondence(ctx):
         if r != want and not text.startswith(('P ', 'P.', 'P{')):
             ctx.failures.append(({'stage': 'e2e', 'uri': uri, 'root': root, 'prefix': prefix, 'text': text, 'exception': None},
                                  'a plain line did not become the one paragraph C01_plain_line_converts predicts: %r' % (r,)))
-    cs = cases(ctx, ctx.n(800, 60000)) + [(stages.URIS[0], r, '', t) for r, t in WITNESSES] + pl + internal_attr_cases(ctx, ctx.n(150, 5000)) + href_cases(ctx, 0)
+    cs = cases(ctx, ctx.n(800, 60000)) + [(stages.URIS[0], r, '', t) for r, t in WITNESSES] + pl + internal_attr_cases(ctx, ctx.n(150, 5000)) + href_cases(ctx, 0) + keyword_line_cases()
     ctx._docs = cs
     stages.stage_e2e(ctx, cs)
 
